@@ -53,6 +53,25 @@ def make_cases(rng, tier, n):
             c["ops"] = [first] + conv + tail
             cases.append(c)
         stats["flow_" + flow] = stats.get("flow_" + flow, 0) + 1
+    for i in range(max(2, n // 30)):
+        # a pipeline that was run and committed; then (old / mixed twin) its manifests are rewritten in the old schema: the next `dud run`
+        # finds every stage up to date in all three twins (run uses the short-circuit form of status)
+        base = gen.pipeline_project(rng, "old-pipe-%d" % i, rng.choice([2, 3]), tier="quick")
+        for e in base["stages"]:
+            if b"vcmd" not in e[1]["cmd"] and b"vlen" not in e[1]["cmd"]:
+                pass
+        sel = "".join(sorted(rng.sample("0123456789abcdef", 8)))
+        first = [("run", False, []), ("commit", rng.choice("lc"), [])]
+        tail = [("run", False, []), ("status", [])]
+        for twin, conv in (("old", [("oldschema",)]), ("mixed", [("oldschema", sel)]), ("new", [])):
+            c = copy.deepcopy(base)
+            c["id"] = "%s-%s" % (base["id"], twin)
+            c["group"] = base["id"]
+            c["twin"] = twin
+            c["flow"] = "run_idle"
+            c["ops"] = first + conv + tail
+            cases.append(c)
+        stats["flow_run_idle"] = stats.get("flow_run_idle", 0) + 1
     if tier == "thorough" or n >= 900:
         # a manifest of several MiB: a flat directory of 30000 entries (an old-schema entry is about half as long again as a
         # current one, so any size limit tuned to the current schema bites the old one first)
@@ -74,7 +93,7 @@ def oracle(run):
     # each twin on its own: the commands after the conversion must succeed
     v = []
     for st in run["steps"]:
-        if st["op"][0] in s1.DUD_OPS and st["rc"] != 0:
+        if st["op"][0] in s1.DUD_OPS and st["rc"] != 0 and not (run["case"]["flow"] == "run_idle" and st["op"][0] == "run"):
             v.append(("failed", "`%s` failed on the %s-schema cache (flow %s): %s" % (s1.op_text(st["op"]), run["case"]["twin"], run["case"]["flow"], st["stderr"][-160:])))
             break
     return v
@@ -182,6 +201,8 @@ def compare_twins(R, g, o, n):
             if a["op"][0] == "commit" and a is not so[0]:
                 if s1eval.recorded(a["snap"]) != s1eval.recorded(b["snap"]):
                     diffs.append("recommit on top of the old-schema manifests records other checksums than on the current ones")
+            if a["op"][0] == "run" and a is not so[0] and a["log"] is not None and b["log"] is not None and sorted(a["log"]) != sorted(b["log"]):
+                diffs.append("`dud run` after the conversion executes %s on the old-schema cache and %s on the current one" % (a["log"], b["log"]))
             if a["op"][0] in ("push",):
                 # same number of objects transferred
                 if len(a["snap"]["remote"]) != len(b["snap"]["remote"]):
